@@ -583,6 +583,20 @@ func (x *Exec) evalBinary(sc *specCtx, e *ast.BinaryExpr) Value {
 			return Scalar{x.modTerm(sc.st, at, bt), typ}
 		}
 		return Scalar{mk(SInt, "gomod", at, bt), typ}
+	case token.SHR, token.SHL:
+		// shifts by a literal amount: a >> k is the floor of a / 2^k (Go's arithmetic shift), a << k is a * 2^k
+		// (mathematical: no wrap-around in specifications)
+		if isLiteral(bt.S) {
+			var k int
+			fmt.Sscan(bt.S, &k)
+			if k >= 0 && k < 63 {
+				p := intLit(int64(1) << uint(k))
+				if e.Op == token.SHR {
+					return Scalar{mk(SInt, "div", at, p), typ}
+				}
+				return Scalar{mk(SInt, "*", at, p), typ}
+			}
+		}
 	}
 	panic(engineErr("unsupported operator %s in spec", e.Op))
 }
